@@ -641,11 +641,38 @@ def execute(case, stats):
                     first[key] = (outcome, step, nabort)
                 else:
                     if prev[0] != outcome:
-                        viols.append(v_('same-statement-same-data-different-result',
-                                        step, descr,
-                                        {'first_at': prev[1],
-                                         'first': prev[0], 'now': outcome,
-                                         'aborts_in_between': nabort - prev[2]}))
+                        # Results that depend on the iteration order of a set
+                        # holding identity-hashed objects (a lazy iterator put
+                        # into a set by a synthesised call) vary with object
+                        # addresses even on a correct tree.  Confirm history
+                        # dependence: the same evaluation repeated right now
+                        # must be stable, and two *different exception
+                        # classes* are never taken as a verdict.
+                        stable = True
+                        for _ in range(6):
+                            try:
+                                c2 = ctx if tgt in ('P', 'C', 'none') else \
+                                    L['P'].create_child_context()
+                                r2 = materialise(st.evaluate(data=data,
+                                                             context=c2))
+                                o2 = ['ok', scrub(ser.ser_value(r2))]
+                            except core.SimBudgetExceeded:
+                                o2 = ['raised', 'step-budget']
+                            except Exception as e2:
+                                o2 = ['raised', type(e2).__name__]
+                            if o2 != outcome:
+                                stable = False
+                                break
+                        if not stable or (prev[0][0] == 'raised' and
+                                          outcome[0] == 'raised'):
+                            stats.inc('nd.address_dependent_outcome_skipped')
+                        else:
+                            viols.append(v_(
+                                'same-statement-same-data-different-result',
+                                step, descr,
+                                {'first_at': prev[1], 'first': prev[0],
+                                 'now': outcome,
+                                 'aborts_in_between': nabort - prev[2]}))
                     stats.inc('probe.reuse_compared')
                     if nabort - prev[2] > 0:
                         stats.inc('probe.reuse_after_aborted_evaluation')
